@@ -148,6 +148,7 @@ fn abs_input(psbt: &Psbt, j: usize) -> J {
 
 struct Interner {
     map: HashMap<String, usize>,
+    pkh_seen: std::collections::HashSet<(usize, usize)>,
 }
 impl Interner {
     fn get(&mut self, out: &mut Vec<String>, abs: &J) -> usize {
@@ -176,6 +177,10 @@ enum Op {
     Preimage { i: usize, kind: usize, wrong: bool },
     Unknown { i: usize, k: u8, v: u8 },
     Update { i: usize, d: usize },
+    /// an updater that records scripts / taproot data but no key origins
+    SetScripts { i: usize },
+    /// one key-origin record (bip32_derivation or tap_key_origins) for instance key `key`
+    Deriv { i: usize, key: usize },
     Finalize { mall: bool, byval: bool },
     FinalizeOld { mall: bool },
     FinalizeInp { i: usize, mall: bool, byval: bool },
@@ -201,6 +206,8 @@ impl Op {
             Op::Preimage { .. } => "add-wrong-preimage",
             Op::Unknown { .. } => "add-unknown",
             Op::Update { .. } => "update",
+            Op::SetScripts { .. } => "set-scripts-without-origins",
+            Op::Deriv { .. } => "add-key-origin",
             Op::Finalize { mall: false, .. } => "finalize",
             Op::Finalize { .. } => "finalize-mall",
             Op::FinalizeOld { .. } => "finalize-old",
@@ -228,10 +235,7 @@ impl Op {
             }
             Op::Preimage { i, kind, .. } => Some((*i, 3, *kind)),
             Op::Unknown { i, k, .. } => Some((*i, 4, *k as usize)),
-            Op::Update { i, .. } => {
-                let _ = case;
-                Some((*i, 5, 0))
-            }
+            Op::Update { i, .. } | Op::SetScripts { i } | Op::Deriv { i, .. } => Some((*i, 5, 0)),
             _ => None,
         }
     }
@@ -391,6 +395,41 @@ fn tap_key_view_sig(cx: &Ctx, psbt: &Psbt, i: usize) -> Option<bitcoin::taproot:
     })
 }
 
+fn origin_src(fp: &bitcoin::bip32::Fingerprint, path: &bitcoin::bip32::DerivationPath) -> Vec<u8> {
+    let mut v = fp.to_bytes().to_vec();
+    v.extend_from_slice(path.to_string().as_bytes());
+    v
+}
+
+/// every (control block, leaf) of the harness' own taproot tree, one per leaf position
+fn own_tap_scripts(m: &gen::InputMat) -> Vec<(bitcoin::taproot::ControlBlock, (ScriptBuf, bitcoin::taproot::LeafVersion))> {
+    let mut out = Vec::new();
+    if let Some(tap) = &m.tap {
+        for ((script, ver), branches) in tap.spend_info.script_map() {
+            for b in branches {
+                out.push((
+                    bitcoin::taproot::ControlBlock {
+                        leaf_version: *ver,
+                        output_key_parity: tap.spend_info.output_key_parity(),
+                        internal_key: tap.internal,
+                        merkle_branch: b.clone(),
+                    },
+                    (script.clone(), *ver),
+                ));
+            }
+        }
+    }
+    out
+}
+
+/// sorted leaf hashes of the leaves that contain instance key `key`
+fn own_leaf_hashes(m: &gen::InputMat, key: usize) -> Vec<bitcoin::taproot::TapLeafHash> {
+    let mut v: Vec<_> = m.tap.as_ref().map(|t| t.leaves.iter().filter(|l| l.keys.contains(&key)).map(|l| l.leaf_hash).collect()).unwrap_or_default();
+    v.sort();
+    v.dedup();
+    v
+}
+
 fn op_json(cx: &Ctx, psbt: &Psbt, op: &Op) -> J {
     let m = |i: usize| &cx.case.inputs[i];
     match op {
@@ -454,6 +493,37 @@ fn op_json(cx: &Ctx, psbt: &Psbt, op: &Op) -> J {
             ("d", J::N((cx.desc_base + *d) as i64)),
             ("what", J::S(format!("update_input_with_descriptor({}, descriptor of input {})", i, d))),
         ]),
+        Op::SetScripts { i } => J::obj(vec![
+            ("o", J::s("scripts")),
+            ("i", J::N(*i as i64)),
+            ("d", J::N((cx.desc_base + *i) as i64)),
+            ("what", J::S(format!("scripts/taproot data of input {} recorded without key origins", i))),
+        ]),
+        Op::Deriv { i, key } => {
+            let k = &cx.pool.keys[m(*i).keys[*key]];
+            if m(*i).tap.is_some() {
+                let mut v = Vec::new();
+                for lh in own_leaf_hashes(m(*i), *key) {
+                    v.extend_from_slice(&lh.to_byte_array());
+                }
+                v.extend_from_slice(&origin_src(&k.fp, &k.path));
+                J::obj(vec![
+                    ("o", J::s("taporigin")),
+                    ("i", J::N(*i as i64)),
+                    ("k", J::S(dig("x", &k.xonly().serialize()))),
+                    ("v", J::S(dig("orig", &v))),
+                    ("what", J::S(format!("tap_key_origins entry for key #{} of input {}", key, i))),
+                ])
+            } else {
+                J::obj(vec![
+                    ("o", J::s("deriv")),
+                    ("i", J::N(*i as i64)),
+                    ("k", J::S(dig("pk", &k.pk.serialize()))),
+                    ("v", J::S(dig("src", &origin_src(&k.fp, &k.path)))),
+                    ("what", J::S(format!("bip32_derivation entry for key #{} of input {}", key, i))),
+                ])
+            }
+        }
         Op::Finalize { mall, byval } => J::obj(vec![("o", J::s("fin")), ("m", J::B(*mall)), ("byval", J::B(*byval))]),
         Op::FinalizeOld { mall } => J::obj(vec![("o", J::s("finold")), ("m", J::B(*mall))]),
         Op::FinalizeInp { i, mall, byval } => {
@@ -524,6 +594,35 @@ fn exec(cx: &Ctx, psbt: &mut Psbt, op: &Op) -> Res {
                 Err(UtxoUpdateError::MismatchedScriptPubkey) => Res::Upd(4),
                 Err(UtxoUpdateError::DerivationError(_)) => Res::Upd(5),
             },
+            Op::SetScripts { i } => {
+                let mi = m(*i);
+                let a = &mut psbt.inputs[*i];
+                if let Some(tap) = &mi.tap {
+                    a.tap_internal_key = Some(tap.internal);
+                    a.tap_merkle_root = tap.spend_info.merkle_root();
+                    for (cb, leaf) in own_tap_scripts(mi) {
+                        a.tap_scripts.insert(cb, leaf);
+                    }
+                } else {
+                    if let Some(r) = &mi.redeem_script {
+                        a.redeem_script = Some(r.clone());
+                    }
+                    if let Some(w) = &mi.witness_script {
+                        a.witness_script = Some(w.clone());
+                    }
+                }
+                Res::Ok
+            }
+            Op::Deriv { i, key } => {
+                let mi = m(*i);
+                let k = &cx.pool.keys[mi.keys[*key]];
+                if mi.tap.is_some() {
+                    psbt.inputs[*i].tap_key_origins.insert(k.xonly(), (own_leaf_hashes(mi, *key), (k.fp, k.path.clone())));
+                } else {
+                    psbt.inputs[*i].bip32_derivation.insert(k.pk, (k.fp, k.path.clone()));
+                }
+                Res::Ok
+            }
             Op::Finalize { mall, byval } => {
                 let r: Result<(), Vec<PErr>> = if *byval {
                     let taken = std::mem::replace(psbt, Psbt::from_unsigned_tx(cx.case.tx.clone()).unwrap());
@@ -699,6 +798,21 @@ fn monitor(cx: &Ctx, step: usize, op: &Op, before: &Psbt, after: &Psbt, res: &Re
             v("nonfinal-mutated", format!("{} changed input {} without finalizing it", op.kind(), j));
         }
     }
+    // completeness: a signature-complete input must be finalized by every call that tries it
+    let tried: Vec<usize> = match op {
+        Op::FinalizeInp { i, .. } if *i < n => vec![*i],
+        Op::Finalize { .. } => (0..n).collect(),
+        _ => vec![],
+    };
+    for j in tried {
+        if !is_final(&after.inputs[j]) && signature_complete(cx, before, j) {
+            let origins = if cx.case.inputs[j].tap.is_some() { before.inputs[j].tap_key_origins.len() } else { before.inputs[j].bip32_derivation.len() };
+            let class = cx.case.inputs[j].outer.name().to_string();
+            v(&format!("complete-not-finalized:{}", class),
+              format!("{} did not finalize input {} ({}) although it carries the scripts and valid signatures/preimages satisfying the descriptor for this transaction ({} key-origin record(s) present, {} keys): {:?}",
+                      op.kind(), j, cx.case.inputs[j].template, origins, cx.case.inputs[j].keys.len(), res));
+        }
+    }
     // failing calls
     match (op, res) {
         (Op::FinalizeInp { .. }, r) if *r != Res::Ok => {
@@ -777,6 +891,125 @@ fn monitor(cx: &Ctx, step: usize, op: &Op, before: &Psbt, after: &Psbt, res: &Re
     if let Op::Extract = op {
         if before != after {
             v("extract-mutated", "extract changed the PSBT".to_string());
+        }
+    }
+}
+
+/// taproot input with a good key-path signature and the internal key recorded
+#[allow(dead_code)]
+fn key_ok_for_tr(cx: &Ctx, psbt: &Psbt, j: usize) -> bool {
+    let m = &cx.case.inputs[j];
+    let a = &psbt.inputs[j];
+    match (&m.tap, &a.tap_key_sig, &m.tap_key_sig) {
+        (Some(tap), Some(s), Some((good, _))) => s == good && a.tap_internal_key == Some(tap.internal),
+        _ => false,
+    }
+}
+
+/// Completeness: does input `j` of `psbt` carry - and carry ONLY - material the harness itself put
+/// there that satisfies the descriptor's spending condition for the unsigned transaction?
+/// (scripts / taproot data as the harness computes them, good signatures of enough keys, right
+/// preimages, satisfied time locks; no wrong signature, wrong-flag signature or wrong preimage
+/// anywhere in the input; utxo fields of every input tied to its outpoint.)  Key-origin records
+/// are NOT required: they are optional in BIP174/371.
+fn signature_complete(cx: &Ctx, psbt: &Psbt, j: usize) -> bool {
+    use gen::Pol;
+    let m = &cx.case.inputs[j];
+    let a = &psbt.inputs[j];
+    if is_final(a) || psbt.unsigned_tx != cx.case.tx || a.sighash_type.is_some() {
+        return false;
+    }
+    for k in 0..psbt.inputs.len() {
+        if utxo_inconsistent(psbt, k).is_some() || utxo_lie(cx, psbt, k).is_some() {
+            return false;
+        }
+    }
+    // clean: every signature / preimage present is a good one of this input
+    let mut have = vec![false; m.keys.len()];
+    for (pk, sig) in &a.partial_sigs {
+        match m.ecdsa_sigs.iter().find(|(ki, good, _)| cx.pool.keys[m.keys[*ki]].full() == *pk && good == sig) {
+            Some((ki, _, _)) => have[*ki] = true,
+            None => return false,
+        }
+    }
+    let preimages_ok = |map_len: usize, kind: usize, got: Option<&Vec<u8>>| -> Option<bool> {
+        match (map_len, got) {
+            (0, _) => Some(false),
+            (1, Some(p)) if p[..] == cx.pool.preimages[kind][..] => Some(true),
+            _ => None,
+        }
+    };
+    let h = |kind: usize| gen::hash_of(kind, &cx.pool.preimages[kind]);
+    let p0 = preimages_ok(a.sha256_preimages.len(), 0, a.sha256_preimages.get(&sha256::Hash::from_slice(&h(0)).unwrap()));
+    let p1 = preimages_ok(a.hash160_preimages.len(), 1, a.hash160_preimages.get(&hash160::Hash::from_slice(&h(1)).unwrap()));
+    let p2 = preimages_ok(a.ripemd160_preimages.len(), 2, a.ripemd160_preimages.get(&ripemd160::Hash::from_slice(&h(2)).unwrap()));
+    let p3 = preimages_ok(a.hash256_preimages.len(), 3, a.hash256_preimages.get(&sha256d::Hash::from_slice(&h(3)).unwrap()));
+    let pre = match (p0, p1, p2, p3) {
+        (Some(a0), Some(a1), Some(a2), Some(a3)) => [a0, a1, a2, a3],
+        _ => return false,
+    };
+    let version = cx.case.tx.version.0;
+    let lock_time = cx.case.tx.lock_time.to_consensus_u32();
+    let seq = cx.case.tx.input[j].sequence.0;
+    fn eval(p: &Pol, have: &[bool], pre: &[bool; 4], version: i32, lock_time: u32, seq: u32) -> bool {
+        match p {
+            Pol::Key(i) => have[*i],
+            Pol::Older(n) => oracle::older_ok(version, seq, *n),
+            Pol::After(n) => oracle::after_ok(lock_time, seq, *n),
+            Pol::Hash(k) => pre[*k],
+            Pol::And(v) => v.iter().all(|x| eval(x, have, pre, version, lock_time, seq)),
+            Pol::Or(v) => v.iter().any(|x| eval(x, have, pre, version, lock_time, seq)),
+            Pol::Thresh(k, v) => v.iter().filter(|x| eval(x, have, pre, version, lock_time, seq)).count() >= *k,
+        }
+    }
+    match m.outer {
+        Outer::Tr => {
+            let tap = m.tap.as_ref().unwrap();
+            if a.tap_internal_key != Some(tap.internal) || !a.partial_sigs.is_empty() {
+                return false;
+            }
+            let key_ok = match (&a.tap_key_sig, &m.tap_key_sig) {
+                (None, _) => false,
+                (Some(s), Some((good, _))) if s == good => true,
+                _ => return false,
+            };
+            // script-path signatures: all good ones of this input
+            let mut leaf_have: Vec<Vec<bool>> = tap.leaves.iter().map(|_| vec![false; m.keys.len()]).collect();
+            for ((x, lh), sig) in &a.tap_script_sigs {
+                let mut hit = false;
+                for (ki, li, good, _) in &m.tap_script_sigs {
+                    if cx.pool.keys[m.keys[*ki]].xonly() == *x && tap.leaves[*li].leaf_hash == *lh && good == sig {
+                        for (l2, leaf) in tap.leaves.iter().enumerate() {
+                            if leaf.leaf_hash == *lh {
+                                leaf_have[l2][*ki] = true;
+                            }
+                        }
+                        hit = true;
+                    }
+                }
+                if !hit {
+                    return false;
+                }
+            }
+            if key_ok {
+                return true;
+            }
+            tap.leaves.iter().enumerate().any(|(li, leaf)| {
+                a.tap_scripts.values().any(|(s, v)| *s == leaf.script && *v == bitcoin::taproot::LeafVersion::TapScript)
+                    && eval(&leaf.pol, &leaf_have[li], &pre, version, lock_time, seq)
+            })
+        }
+        _ => {
+            if a.tap_key_sig.is_some() || !a.tap_script_sigs.is_empty() {
+                return false;
+            }
+            let scripts_ok = match m.outer {
+                Outer::Wsh => a.witness_script == m.witness_script && a.redeem_script.is_none(),
+                Outer::ShWsh => a.witness_script == m.witness_script && a.redeem_script == m.redeem_script,
+                Outer::Sh | Outer::ShWpkh => a.redeem_script == m.redeem_script && a.witness_script.is_none(),
+                _ => a.redeem_script.is_none() && a.witness_script.is_none(),
+            };
+            scripts_ok && eval(&m.pol, &have, &pre, version, lock_time, seq)
         }
     }
 }
@@ -867,6 +1100,64 @@ fn monitor_extract(cx: &Ctx, step: usize, psbt: &Psbt, checked: &[bool], out: &m
     }
 }
 
+/// Complete tabulation, on the states met, of how the compiled code finds the key behind a raw
+/// key hash: `Placeholder::PubkeyHash(h, 34).satisfy_self(&PsbtInputSatisfier)`.
+fn tabulate_pkh(cx: &Ctx, psbt: &Psbt, int: &mut Interner, lines: &mut Vec<String>) {
+    use miniscript::miniscript::satisfy::Placeholder;
+    use miniscript::psbt::PsbtInputSatisfier;
+    for j in 0..psbt.inputs.len() {
+        let m = &cx.case.inputs[j];
+        if m.tap.is_some() {
+            // x-only keys of a tap leaf (since /repo f4ee52fc: tap_key_origins, else tap_script_sigs)
+            if psbt.inputs[j].tap_script_sigs.is_empty() && psbt.inputs[j].tap_key_origins.is_empty() {
+                continue;
+            }
+            let id = int.get(lines, &abs_input(psbt, j));
+            for ki in &m.keys {
+                if !int.pkh_seen.insert((id, *ki)) {
+                    continue;
+                }
+                let x = cx.pool.keys[*ki].xonly();
+                let h = hash160::Hash::hash(&x.serialize());
+                let sat = PsbtInputSatisfier::new(psbt, j);
+                let r = catch_unwind(AssertUnwindSafe(|| Placeholder::<bitcoin::key::XOnlyPublicKey>::PubkeyHash(h, 33).satisfy_self(&sat))).unwrap_or(None);
+                lines.push(
+                    J::obj(vec![
+                        ("t", J::s("pkhtap")),
+                        ("inp", J::N(id as i64)),
+                        ("h", J::S(dig("h160", &h.to_byte_array()))),
+                        ("r", J::opt_s(r.map(|b| dig("x", &b)))),
+                    ])
+                    .to_string(),
+                );
+            }
+            continue;
+        }
+        if psbt.inputs[j].partial_sigs.is_empty() && psbt.inputs[j].bip32_derivation.is_empty() {
+            continue;
+        }
+        let id = int.get(lines, &abs_input(psbt, j));
+        for ki in &m.keys {
+            if !int.pkh_seen.insert((id, *ki)) {
+                continue;
+            }
+            let k = &cx.pool.keys[*ki];
+            let h = hash160::Hash::hash(&k.pk.serialize());
+            let sat = PsbtInputSatisfier::new(psbt, j);
+            let r = catch_unwind(AssertUnwindSafe(|| Placeholder::<bitcoin::PublicKey>::PubkeyHash(h, 34).satisfy_self(&sat))).unwrap_or(None);
+            lines.push(
+                J::obj(vec![
+                    ("t", J::s("pkh")),
+                    ("inp", J::N(id as i64)),
+                    ("h", J::S(dig("h160", &h.to_byte_array()))),
+                    ("r", J::opt_s(r.map(|b| dig("pk", &b)))),
+                ])
+                .to_string(),
+            );
+        }
+    }
+}
+
 // ------------------------------------------------------------------ histories
 fn op_pool(case: &Case, rng: &mut Rng) -> Vec<Op> {
     let n = case.inputs.len();
@@ -874,6 +1165,10 @@ fn op_pool(case: &Case, rng: &mut Rng) -> Vec<Op> {
     for i in 0..n {
         let m = &case.inputs[i];
         v.push(Op::Update { i, d: i });
+        if rng.chance(1, 2) {
+            v.push(Op::SetScripts { i });
+            v.push(Op::Deriv { i, key: rng.below(m.keys.len()) });
+        }
         for k in 0..m.ecdsa_sigs.len() {
             v.push(Op::Sig { i, key: k, variant: 0 });
         }
@@ -1052,6 +1347,9 @@ fn run_history(
             }
         }
         obs.push(J::obj(vec![("r", res.json()), ("st", abs_state(&psbt, int, lines))]));
+        if op.is_adder() {
+            tabulate_pkh(cx, &psbt, int, lines);
+        }
         results.push(res);
     }
     // order independence: reverse every maximal block of adding operations that write distinct places
@@ -1441,7 +1739,7 @@ pub fn run(args: &[String]) {
     }
     let mut master = Rng(seed ^ 0xC14C_14C1_4C14_C14C);
     let pool = make_pool(&mut master.fork(), 44);
-    let mut int = Interner { map: HashMap::new() };
+    let mut int = Interner { map: HashMap::new(), pkh_seen: Default::default() };
     let mut st = Stats {
         histories: 0,
         ops: 0,
@@ -1463,6 +1761,24 @@ pub fn run(args: &[String]) {
     use std::io::Write;
     let mut lines: Vec<String> = Vec::new();
     mall_probe(&pool, &mut lines);
+    for k in &pool.keys {
+        lines.push(
+            J::obj(vec![
+                ("t", J::s("keyhash")),
+                ("k", J::S(dig("x", &k.xonly().serialize()))),
+                ("h", J::S(dig("h160", &hash160::Hash::hash(&k.xonly().serialize()).to_byte_array()))),
+            ])
+            .to_string(),
+        );
+        lines.push(
+            J::obj(vec![
+                ("t", J::s("keyhash")),
+                ("k", J::S(dig("pk", &k.pk.serialize()))),
+                ("h", J::S(dig("h160", &hash160::Hash::hash(&k.pk.serialize()).to_byte_array()))),
+            ])
+            .to_string(),
+        );
+    }
     let mut hid: usize;
     let mut desc_base = 0usize;
     for cid in 0..ncases {
@@ -1507,6 +1823,16 @@ pub fn run(args: &[String]) {
             .to_string(),
         );
         probes(&cx, cid, &mut int, &mut lines);
+        for m in &case.inputs {
+            if let Some(tap) = &m.tap {
+                for (ki, li, _, _) in &m.tap_script_sigs {
+                    let x = pool.keys[m.keys[*ki]].xonly();
+                    let mut kb = x.serialize().to_vec();
+                    kb.extend_from_slice(&tap.leaves[*li].leaf_hash.to_byte_array());
+                    lines.push(J::obj(vec![("t", J::s("xl")), ("k", J::S(dig("xl", &kb))), ("x", J::S(dig("x", &x.serialize())))]).to_string());
+                }
+            }
+        }
         // initial states: each input at a random stage of preparation
         let n_inits = if tier == "thorough" { 4 } else { 3 };
         for ini in 0..n_inits {
@@ -1659,6 +1985,77 @@ pub fn run(args: &[String]) {
                             run_history(&cx, &g, &ops, &format!("utxo-unchecked:{}", gen::UTXO_VARIANTS[variant]), hid, cid, &mut int, &mut lines, &mut st);
                             hid += 1;
                         }
+                    }
+                }
+            }
+            // (f) key origins are optional: scripts + signatures, NO (or only some) bip32_derivation /
+            //     tap_key_origins records; must finalize exactly like the fully updated input
+            if ini < 2 {
+                for j in 0..nin {
+                    let m = &case.inputs[j];
+                    let has_pkh = m.template.contains("pkh(");
+                    if !has_pkh && !rng.chance(1, 3) {
+                        continue;
+                    }
+                    let mut g = base_psbt(&case);
+                    for i in 0..nin {
+                        if i != j {
+                            prepare_input(&cx, &mut g, i, 2, &mut rng);
+                        }
+                    }
+                    let mut signing: Vec<Op> = (0..m.ecdsa_sigs.len()).map(|k| Op::Sig { i: j, key: k, variant: 0 }).collect();
+                    for idx in 0..m.tap_script_sigs.len() {
+                        signing.push(Op::TapScriptSig { i: j, idx, bad: false });
+                    }
+                    if m.tap_key_sig.is_some() && ini == 0 {
+                        signing.push(Op::TapKeySig { i: j, bad: false });
+                    }
+                    for kind in &m.uses_hash {
+                        signing.push(Op::Preimage { i: j, kind: *kind, wrong: false });
+                    }
+                    let tail = vec![Op::FinalizeInp { i: j, mall: false, byval: false }, Op::Finalize { mall: false, byval: false }, Op::Extract];
+                    for partial in [false, true] {
+                        let mut ops = vec![Op::SetScripts { i: j }];
+                        if partial {
+                            // origins for every key but the first two (the pkh keys of the templates)
+                            for k in 2..m.keys.len() {
+                                ops.push(Op::Deriv { i: j, key: k });
+                            }
+                            if m.keys.len() <= 2 {
+                                ops.push(Op::Deriv { i: j, key: m.keys.len() - 1 });
+                            }
+                        }
+                        ops.extend(signing.clone());
+                        ops.extend(tail.clone());
+                        run_history(&cx, &g, &ops, if partial { "some-key-origins" } else { "no-key-origins" }, hid, cid, &mut int, &mut lines, &mut st);
+                        hid += 1;
+                    }
+                    // differential: same signatures, with vs without derivation info
+                    let mut with = g.clone();
+                    let mut without = g.clone();
+                    exec(&cx, &mut with, &Op::Update { i: j, d: j });
+                    exec(&cx, &mut without, &Op::SetScripts { i: j });
+                    for op in &signing {
+                        exec(&cx, &mut with, op);
+                        exec(&cx, &mut without, op);
+                    }
+                    let ra = exec(&cx, &mut with, &Op::FinalizeInp { i: j, mall: false, byval: false });
+                    let rb = exec(&cx, &mut without, &Op::FinalizeInp { i: j, mall: false, byval: false });
+                    if with.inputs[j].final_script_sig != without.inputs[j].final_script_sig
+                        || with.inputs[j].final_script_witness != without.inputs[j].final_script_witness
+                    {
+                        lines.push(
+                            J::obj(vec![
+                                ("t", J::s("probe-viol")),
+                                ("case", J::N(cid as i64)),
+                                ("key", J::S(format!("derivation-info-changes-finalization:{}", m.outer.name()))),
+                                ("what", J::S(format!(
+                                    "input {} ({}): the same signatures finalize differently with key origins ({:?}) and without ({:?})",
+                                    j, m.template, ra, rb
+                                ))),
+                            ])
+                            .to_string(),
+                        );
                     }
                 }
             }
